@@ -33,15 +33,13 @@ impl MmapMut {
         panic!()
     }
 
-    fn copy_from_slice(&self, _: &[u8]) {
-        panic!()
-    }
 }
 
 pub struct Writer {
     cache: PathBuf,
     builder: IntegrityOpts,
     mmap: Option<MmapMut>,
+    mmap_pos: usize,
     tmpfile: NamedTempFile,
 }
 
@@ -72,10 +70,13 @@ impl Writer {
             builder: IntegrityOpts::new().algorithm(algo),
             tmpfile,
             mmap,
+            mmap_pos: 0,
         })
     }
 
-    pub fn close(self) -> Result<Integrity> {
+    pub fn close(mut self) -> Result<Integrity> {
+        finish_mmap(&mut self.mmap, self.mmap_pos, &mut self.tmpfile)
+            .with_context(|| "Failed to finish the memory-mapped temp file".to_string())?;
         let sri = self.builder.result();
         let cpath = path::content_path(&self.cache, &sri);
         DirBuilder::new()
@@ -115,8 +116,7 @@ impl Writer {
 impl Write for Writer {
     fn write(&mut self, buf: &[u8]) -> std::io::Result<usize> {
         self.builder.input(buf);
-        if let Some(mmap) = &mut self.mmap {
-            mmap.copy_from_slice(buf);
+        if mmap_write(&mut self.mmap, &mut self.mmap_pos, &mut self.tmpfile, buf)? {
             Ok(buf.len())
         } else {
             self.tmpfile.write(buf)
@@ -143,6 +143,7 @@ struct Inner {
     builder: IntegrityOpts,
     tmpfile: NamedTempFile,
     mmap: Option<MmapMut>,
+    mmap_pos: usize,
     buf: Vec<u8>,
     last_op: Option<Operation>,
 }
@@ -177,6 +178,7 @@ impl AsyncWriter {
             cache: cache_path,
             builder: IntegrityOpts::new().algorithm(algo),
             mmap,
+            mmap_pos: 0,
             tmpfile,
             buf: vec![],
             last_op: None,
@@ -196,21 +198,29 @@ impl AsyncWriter {
                         None => return Poll::Ready(None),
                         Some(inner) => {
                             let (s, r) = futures::channel::oneshot::channel();
-                            let tmpfile = inner.tmpfile;
+                            let mut tmpfile = inner.tmpfile;
+                            let mut mmap = inner.mmap;
+                            let mmap_pos = inner.mmap_pos;
                             let sri = inner.builder.result();
                             let cpath = path::content_path(&inner.cache, &sri);
 
                             // Start the operation asynchronously.
-                            *state = State::Busy(crate::async_lib::spawn_blocking(|| {
-                                let res = std::fs::DirBuilder::new()
-                                    .recursive(true)
-                                    // Safe unwrap. cpath always has multiple segments
-                                    .create(cpath.parent().unwrap())
+                            *state = State::Busy(crate::async_lib::spawn_blocking(move || {
+                                let res = finish_mmap(&mut mmap, mmap_pos, &mut tmpfile)
                                     .with_context(|| {
-                                        format!(
-                                            "building directory {} failed",
-                                            cpath.parent().unwrap().display()
-                                        )
+                                        "finishing the memory-mapped temp file failed".to_string()
+                                    })
+                                    .and_then(|_| {
+                                        std::fs::DirBuilder::new()
+                                            .recursive(true)
+                                            // Safe unwrap. cpath always has multiple segments
+                                            .create(cpath.parent().unwrap())
+                                            .with_context(|| {
+                                                format!(
+                                                    "building directory {} failed",
+                                                    cpath.parent().unwrap().display()
+                                                )
+                                            })
                                     });
                                 if res.is_err() {
                                     let _ = s.send(res.map(|_| sri));
@@ -307,15 +317,19 @@ impl AsyncWrite for AsyncWriter {
                         // Start the operation asynchronously.
                         *state = State::Busy(crate::async_lib::spawn_blocking(|| {
                             inner.builder.input(&inner.buf);
-                            if let Some(mmap) = &mut inner.mmap {
-                                mmap.copy_from_slice(&inner.buf);
-                                inner.last_op = Some(Operation::Write(Ok(inner.buf.len())));
-                                State::Idle(Some(inner))
-                            } else {
-                                let res = inner.tmpfile.write(&inner.buf);
-                                inner.last_op = Some(Operation::Write(res));
-                                State::Idle(Some(inner))
-                            }
+                            let mapped = mmap_write(
+                                &mut inner.mmap,
+                                &mut inner.mmap_pos,
+                                &mut inner.tmpfile,
+                                &inner.buf,
+                            );
+                            let res = match mapped {
+                                Ok(true) => Ok(inner.buf.len()),
+                                Ok(false) => inner.tmpfile.write(&inner.buf),
+                                Err(e) => Err(e),
+                            };
+                            inner.last_op = Some(Operation::Write(res));
+                            State::Idle(Some(inner))
                         }));
                     }
                 }
@@ -436,6 +450,64 @@ fn make_mmap(tmpfile: &mut NamedTempFile, size: Option<usize>) -> Result<Option<
     } else {
         Ok(None)
     }
+}
+
+/// Copies `buf` into the memory-mapped temp file at the current position and
+/// returns `true`. Returns `false` if the writer is not (or no longer)
+/// memory-mapped and `buf` has to go through the file instead: this is the
+/// case once more data arrives than was declared, which leaves the mapped
+/// fast path for good (the size mismatch is reported by commit).
+#[cfg(feature = "mmap")]
+fn mmap_write(
+    mmap: &mut Option<MmapMut>,
+    pos: &mut usize,
+    tmpfile: &mut NamedTempFile,
+    buf: &[u8],
+) -> std::io::Result<bool> {
+    if let Some(map) = mmap {
+        if let Some(dst) = map.get_mut(*pos..*pos + buf.len()) {
+            dst.copy_from_slice(buf);
+            *pos += buf.len();
+            return Ok(true);
+        }
+        finish_mmap(mmap, *pos, tmpfile)?;
+    }
+    Ok(false)
+}
+
+#[cfg(not(feature = "mmap"))]
+fn mmap_write(
+    _: &mut Option<MmapMut>,
+    _: &mut usize,
+    _: &mut NamedTempFile,
+    _: &[u8],
+) -> std::io::Result<bool> {
+    Ok(false)
+}
+
+/// Unmaps the temp file and cuts its preallocated length down to the `pos`
+/// bytes that were actually written, leaving the file positioned at its end.
+#[cfg(feature = "mmap")]
+fn finish_mmap(
+    mmap: &mut Option<MmapMut>,
+    pos: usize,
+    tmpfile: &mut NamedTempFile,
+) -> std::io::Result<()> {
+    if let Some(map) = mmap.take() {
+        let preallocated = map.len();
+        drop(map);
+        let file = tmpfile.as_file_mut();
+        if pos != preallocated {
+            file.set_len(pos as u64)?;
+        }
+        file.seek(std::io::SeekFrom::Start(pos as u64))?;
+    }
+    Ok(())
+}
+
+#[cfg(not(feature = "mmap"))]
+fn finish_mmap(_: &mut Option<MmapMut>, _: usize, _: &mut NamedTempFile) -> std::io::Result<()> {
+    Ok(())
 }
 
 #[cfg(feature = "mmap")]
